@@ -29,6 +29,14 @@ MARK = '__supp_mark__'
 IDENT = re.compile(r'\w*$')
 
 
+def ident_run(text):
+    """longest run of identifier characters at the end of text (XID_Continue: a combining mark continues an identifier, \\w does not see it)"""
+    i = len(text)
+    while i > 0 and ('a' + text[i - 1]).isidentifier():
+        i -= 1
+    return text[i:]
+
+
 def project_for(fn):
     if fn.startswith(nc.PROJECT_DIR):
         return Project([nc.PROJECT_DIR])
@@ -59,7 +67,7 @@ def contract(text, pos, fn, label, part):
     except Exception:
         out.append(('malformed-result', '%s: assist at %s returned %r' % (label, pos, r)))
         return None, out
-    want = IDENT.search(line[:col]).group()
+    want = ident_run(line[:col])
     if pre != want:
         before = line[:col][-len(want) - 1:-len(want)] if len(line[:col]) > len(want) else '^'
         out.append(('prefix:after-%s' % char_class(before), '%s: assist at %s returns prefix %r, identifier characters left of the cursor are %r (line %r)' % (
@@ -362,7 +370,7 @@ def unit_imports(_):
     return part
 
 
-UNICODE_NAMES = ['gr\u00f6\u00dfe', 'pa\u0442', 'd\u00e9j\u00e0_x', '\u03c9', 'na\u00efve1', '\u53d8\u91cfx', 'x_\u00e9', '_\u00e9']
+UNICODE_NAMES = ['\u0928\u093e\u092e', 'a\u00b7b', 'e\u0301t\u0301', 'gr\u00f6\u00dfe', 'pa\u0442', 'd\u00e9j\u00e0_x', '\u03c9', 'na\u00efve1', '\u53d8\u91cfx', 'x_\u00e9', '_\u00e9']
 UNICODE_TEMPLATES = ['{v} = 1\nprint({v})\n', '{v} = 1\nzz = [0,{v}]\n', 'import os\nos.{v}\n', 'class K:\n    {v} = 1\nK.{v}\n', 'from m1 import {v}\n',
                      'import {v}\n', 'def f({v}=1):\n    return {v}\n', '{v} = 1\nif not {v}:\n    pass\n', 'zz = 1\nzz.{v}\n', 'import pk.{v}\n', 'from pk.{v} import s1\n',
                      'if 1: from m1 import {v}\n', '{v} = 1\nzz = "{v}"\n', '{v} = 1\n\t\n# {v}\n']
@@ -380,8 +388,24 @@ def unicode_cases():
                 yield '%s|%d' % (tmpl.split('\n')[-2], k), text, (ln, col0 + k)
 
 
+SAME_LINE = [('s = "' + '\u00e4\u00f6\u00fc' * 12 + '"; q1 = 1; q2 = 2; print(q', {'q1', 'q2'}),
+             ('\u00e4 = "' + '\u00e9' * 30 + '"; q1 = \u00e4; q2 = [q', {'q1'}),
+             ('def f(' + '\u00e4' * 30 + ', q1): q2 = 1; return q', {'q1', 'q2'}),
+             ('for \u0928\u093e\u092e, q1 in []: q2 = "\u0928\u093e\u092e"; q', {'q1', 'q2'})]
+
+
 def unit_unicode(_):
     part = Part()
+    for text, must in SAME_LINE:
+        part.count('evaluations')
+        part.count('unicode_cursors')
+        pos = (1, len(text))
+        r, vs = contract(text + '\n', pos, nc.FILE, 'non-ASCII line', part)
+        for sig, what in vs:
+            part.violation(sig + ':unicode', what + '\n--- source ---\n' + text, {'kind': 'cursor1', 'text': text + '\n', 'pos': list(pos), 'ctx': 'unicode'})
+        if r is not None and not must <= set(r[1]):
+            part.violation('same-line-names-missing:unicode', 'assist at the end of %r lacks %s, bound earlier on that line (columns counted in bytes?)' % (text, sorted(must - set(r[1]))),
+                           {'kind': 'unicode-line', 'text': text})
     for label, text, pos in unicode_cases():
         part.count('evaluations')
         part.count('unicode_cursors')
@@ -413,6 +437,8 @@ def _dispatch(u):
 
 def replay(w):
     p = Part()
+    if w['kind'] == 'unicode-line':
+        return [(v['sig'], v['what']) for v in unit_unicode(None).violations if v['sig'].startswith('same-line')]
     if w['kind'] == 'cursor1':
         r, vs = contract(w['text'], tuple(w['pos']), nc.FILE, 'context ' + w['ctx'], p)
         if w['ctx'] == 'import' and r is not None:
